@@ -92,6 +92,63 @@ func genC19(rng *rand.Rand, n int, emit func(Case), dist map[string]int) {
 	queries := []string{"", "q=1", "a=b&c=d%20e", "code=404", "x=%2F"}
 	methods := []string{"GET", "POST", "PUT", "DELETE", "PATCH"}
 	for it := 0; it < n; it++ {
+		if it%10 == 9 {
+			// ---- the random balancer: same target bookkeeping, Next picks any CURRENT target
+			var cur []string
+			var tg []*middleware.ProxyTarget
+			for _, k := range rng.Perm(len(names))[:1+rng.Intn(3)] {
+				cur = append(cur, names[k])
+				tg = append(tg, &middleware.ProxyTarget{Name: names[k], URL: urls[names[k]]})
+			}
+			init := append([]string(nil), cur...)
+			rb := middleware.NewRandomBalancer(tg)
+			ec := echo.New()
+			var ops, outs []Sx
+			ok, why := true, ""
+			for k := 20 + rng.Intn(40); k > 0; k-- {
+				nm := names[rng.Intn(len(names))]
+				has := false
+				for _, c := range cur {
+					has = has || c == nm
+				}
+				switch rng.Intn(4) {
+				case 0:
+					res := rb.AddTarget(&middleware.ProxyTarget{Name: nm, URL: urls[nm]})
+					if res == has {
+						ok, why = false, fmt.Sprintf("random balancer: AddTarget(%s) returned %v with targets %v", nm, res, cur)
+					}
+					if !has {
+						cur = append(cur, nm)
+					}
+					ops, outs = append(ops, L(I(0), S(nm))), append(outs, L(B(res)))
+				case 1:
+					res := rb.RemoveTarget(nm)
+					if res != has {
+						ok, why = false, fmt.Sprintf("random balancer: RemoveTarget(%s) returned %v with targets %v", nm, res, cur)
+					}
+					for i, c := range cur {
+						if c == nm {
+							cur = append(cur[:i:i], cur[i+1:]...)
+							break
+						}
+					}
+					ops, outs = append(ops, L(I(1), S(nm))), append(outs, L(B(res)))
+				default:
+					t := rb.Next(ec.NewContext(httptest.NewRequest("GET", "/", nil), httptest.NewRecorder()))
+					member := false
+					for _, c := range cur {
+						member = member || (t != nil && c == t.Name)
+					}
+					if (t == nil) != (len(cur) == 0) || t != nil && !member {
+						ok, why = false, fmt.Sprintf("random balancer: Next returned %v with current targets %v", t, cur)
+					}
+				}
+			}
+			in := L(I(0), LS(init), L(ops...))
+			emit(Case{In: in, Out: L(outs...), Ok: ok, Why: why, Key: Show(in), Human: fmt.Sprintf("random balancer over %v: %d add/remove operations, Next checked for membership", init, len(ops))})
+			dist["random_balancer_histories"]++
+			continue
+		}
 		R := rng.Intn(4)
 		var init []string
 		perm := rng.Perm(len(names))
@@ -204,7 +261,12 @@ func genC19(rng *rand.Rand, n int, emit func(Case), dist map[string]int) {
 				} else {
 					body = ""
 				}
-				req := httptest.NewRequest(method, target, rd)
+				reqTarget := target
+				if rewriting && rng.Intn(4) == 0 {
+					reqTarget = "http://front.example.com" + target // absolute-form request target: rules still see the path and query only
+					dist["absolute_form_request_targets"]++
+				}
+				req := httptest.NewRequest(method, reqTarget, rd)
 				if withHung {
 					// the client gives up after 15 ms: a target that does not answer in time is a failed attempt (502), not a client abort
 					ctx, cancel := context.WithTimeout(req.Context(), 15*time.Millisecond)
